@@ -31,6 +31,9 @@ def recheck(name, checks):
     gen_saved = save_gen()
     try:
         rc, out = sh(["git", "apply", os.path.join(d, "patch.diff")], cwd=wt)
+        if rc != 0:   # /repo moved on since the seed was made (a later fix: commit touched the same file): merge
+            rc, out = sh(["git", "apply", "--3way", os.path.join(d, "patch.diff")], cwd=wt)
+            if rc == 0: sh(["git", "reset", "-q"], cwd=wt)
         if rc != 0:
             print(name, "patch no longer applies to HEAD:", out[-300:]); return
         for c in checks:
